@@ -1,8 +1,8 @@
 SPECIFICATION Spec
 CONSTANTS
-  OrbKinds = {"n", "P", "a"}
-  SpinKinds = {"f", "p"}
-  AllowDeferred = FALSE
+  OrbKinds = {"P"}
+  SpinKinds = {"f"}
+  AllowDeferred = TRUE
   SpinSync = FALSE
   ObliqOn = TRUE
   FixTerms = TRUE
@@ -11,3 +11,4 @@ INVARIANT C13_Fresh
 INVARIANT C17_Kepler
 INVARIANT SyncHolds
 CHECK_DEADLOCK FALSE
+INVARIANT PendingMeansDeferred
